@@ -54,6 +54,10 @@ impl<OT: OtReceiver<Msg = Block> + Malicious> Sender<OT> {
             let q: [u8; 16] = q.try_into().unwrap();
             let q = Block::from(q);
             shared_rand.fill_bytes(chi.as_mut());
+            #[cfg(feature = "__verif")]
+            if j == 0 {
+                crate::verif::tap("kos_chi0_sender", usize::MAX, &[u128::from(chi)]);
+            }
             let (lo, hi) = q.clmul(&chi);
             check = xor_two_blocks(&check, &(lo, hi));
         }
